@@ -104,3 +104,34 @@ func (l *explicitSimilarityLoader) GetDefaultCloneConfig() *domain.CloneRequest 
 	}
 	return cfg
 }
+
+// explicitMinLinesLoader makes an explicitly given minimum clone size win, in
+// the same way as explicitSimilarityLoader does for the similarity threshold.
+type explicitMinLinesLoader struct {
+	domain.CloneConfigurationLoader
+	minLines int
+}
+
+// WithExplicitMinLines wraps loader for a request whose MinLines was explicitly
+// given by the caller.
+func WithExplicitMinLines(loader domain.CloneConfigurationLoader, minLines int) domain.CloneConfigurationLoader {
+	return &explicitMinLinesLoader{CloneConfigurationLoader: loader, minLines: minLines}
+}
+
+// LoadCloneConfig loads the configuration and applies the explicit minimum.
+func (l *explicitMinLinesLoader) LoadCloneConfig(configPath string) (*domain.CloneRequest, error) {
+	cfg, err := l.CloneConfigurationLoader.LoadCloneConfig(configPath)
+	if err == nil && cfg != nil {
+		cfg.MinLines = l.minLines
+	}
+	return cfg, err
+}
+
+// GetDefaultCloneConfig returns the default configuration with the explicit minimum.
+func (l *explicitMinLinesLoader) GetDefaultCloneConfig() *domain.CloneRequest {
+	cfg := l.CloneConfigurationLoader.GetDefaultCloneConfig()
+	if cfg != nil {
+		cfg.MinLines = l.minLines
+	}
+	return cfg
+}
